@@ -113,7 +113,7 @@ SPECS["C26"] = {
 
 SPECS["C25"] = {
     "parts": [{"engine": "kani", "group": "ul", "select": r"^c25_", "mem_gb": 12, "timeout": {"quick": 1500, "thorough": 2400}},
-              {"engine": "m", "module": "c25"}],
+              {"engine": "m", "module": "c25"}, {"engine": "m", "module": "c25rq"}],
     "functions": ["dicom_ul::pdu::writer::write_pdu (+ write_chunk_u32)", "dicom_ul::pdu::reader::read_pdu"],
     "bounds": "A-RELEASE-RQ/RP, P-DATA-TF with one PDV of 2 symbolic bytes (context id, type, last flag symbolic), unknown PDU type; "
               "strict prefixes of concrete length per instance; item length fields: write_chunk_u16/u32 for all content lengths <= 2^20 / 2^33 (Engine M)",
